@@ -76,6 +76,50 @@ def c17_class(case, obs):
     rel = "no-limit" if l is None else ("flen<=limit-2" if fl <= l - 2 else ("limit-1" if fl == l - 1 else ("at-limit" if fl == l else ("limit+1" if fl == l + 1 else "over"))))
     return {"path": case.get("path", "?"), "limit": lim, "relation": rel, "sent": obs.get("sent", obs.get("crash", "?")).split(":")[0]}
 
+def c07_class(case, obs):
+    kind = case.get("kind", "?")
+    if kind == "pair":
+        p = case.get("path", "-")
+        try: path = bytes.fromhex(p).decode() if p != "-" else ""
+        except Exception: path = "?"
+        first = obs.get("rs", obs.get("crash", "")).split("|")[0]
+        ec = first[40:48] if len(first) >= 48 else "?"
+        return {"kind": kind, "target": path.split("/")[1] if "/" in path else path, "fmt": case.get("fmt", "?"),
+                "result": "ok" if ec == "00000000" else "error", "servers": case.get("srv", "0")}
+    ops = case.get("ops", "-"); nops = 0 if ops == "-" else ops.count(";") + 1
+    ans = obs.get("ans", obs.get("crash", ""))
+    kinds = "".join(sorted(set(a[0] for a in ans.split("|") if a)))
+    depth = max([int(m, 16) for m in _re.findall(r"\.l([0-9a-f]+):", ans)] or [0])
+    return {"kind": kind, "ops": nops, "answers": kinds, "has_mw": str("M:" in ops),
+            "depth": "0" if depth == 0 else ("<=16" if depth <= 16 else ">16")}
+
+def c12_class(case, obs):
+    sched = case.get("kind2") == "sched"
+    o = obs.get("final", "") if sched else obs.get("obs", "")
+    first = obs.get("first", "-")
+    woke = ("P" if first == "P" else "imm") if not sched else case.get("exp")
+    return {"form": "schedule" if sched else "history", "kind": case.get("kind"),
+            "parked_first": woke, "returned": str(any(t != "P" for t in o.split(",")) if o not in ("", "-") else False),
+            "threads": case.get("t", "").count("|") + 1 if sched else 1}
+
+def c10_class(case, obs):
+    f = case.get("fault", "none").split(":")
+    return {"puller": case.get("pu", "?"), "transport": case.get("tr", "-"), "comp": case.get("comp", "?"),
+            "fault": f[0] if f[0] != "kill" else "kill:" + (f[1] if len(f) > 1 else "?"),
+            "dst_before": "absent" if case.get("dst") == "absent" else "present",
+            "stale_tmp": str(case.get("tmp") != "absent"),
+            "res": obs.get("res", obs.get("crash", "?")[:16])}
+
+def c14_class(case, obs):
+    if case.get("k") == "conc":
+        th = case.get("th", "")
+        n = sum(0 if t == "-" else t.count(";") + 1 for t in th.split("!"))
+        return {"kind": "conc", "threads": th.count("!") + 1, "ops": _len_class(n), "mount": "-",
+                "wrote": str("737461747573:s6f6b}" in obs.get("res", "")), "called": str(obs.get("log", "-") != "-")}
+    ops = case.get("ops", "-"); n = 0 if ops == "-" else ops.count(";") + 1; steps = obs.get("steps", "")
+    return {"kind": "seq", "threads": 1, "ops": _len_class(n), "mount": "none" if case.get("pre") == "none" else "mounted",
+            "wrote": str("737461747573:s6f6b}" in steps), "called": str("^" in steps)}
+
 PROPS = {
     "C01": {
         "harness": "c01", "driver": "c01", "shards": 16,
@@ -126,6 +170,34 @@ PROPS = {
         "classify": c17_class,
         "nontrivial": lambda cls: cls["limit"] != "-",
         "rule": "cases = for each assumed peer frame limit in {1 KiB, 4 KiB, 64 KiB, 1 MiB, (16 MiB thorough), none} and each of the 7 outbound paths (inline response, off-reader response, handler-pushed notify, registry broadcast, proxy-forwarded response, client request, client notify): frame sizes limit-2..limit+2 plus random sizes up to twice the limit, each on a fresh live WebSocket server / proxy / client with a raw tungstenite peer recording message sizes, the on_error hook counted, and a follow-up exchange for liveness; distinct = distinct case; non-trivial = a limit is configured",
+        "timeout_s": {"quick": 900, "thorough": 3400},
+    },
+    "C07": {
+        "harness": "c07", "driver": "c07", "shards": 16, "harness_shards": 4,
+        "classify": c07_class,
+        "nontrivial": lambda cls: cls["kind"] == "pair" or cls["answers"] not in ("", "N"),
+        "rule": "seg = a recording hand-written RepeStruct mounted under 9 roots, relative paths of every depth 0..40 (plain, all-empty, escaped, trailing '/') plus random paths weighted on 15..18 segments with ~0/~1, malformed escapes, UTF-8, string-prefix-only and no-leading-slash paths, middleware before/after; get = every registration sequence of length <=4 (quick) / <=5 (thorough) over 10 ops (2 exact routes, 3 registries, 4 structs, middleware) x 9 lookup paths, plus random histories; each lookup through handle and handle_view with recording middlewares/handlers, plus json_pointer::parse of each path; pair = 35 targets covering every built-in handler kind x body-format codes {0,1,2,3,4,0xffff} x well-formed/truncated/random bodies: handle, handle_with_ctx, handle_view under forwarding chains and, for a share, live TCP/async/WebSocket servers, compared after the echo rule; distinct = distinct case line; non-trivial = a lookup reached a handler, or a pair case",
+        "timeout_s": {"quick": 600, "thorough": 3000},
+    },
+    "C10": {
+        "harness": "c10", "driver": "c10", "shards": 8, "harness_shards": 8,
+        "classify": c10_class,
+        "nontrivial": lambda cls: cls["fault"] != "none",
+        "rule": "cases = small streams (stream length x chunk size incl. empty, single chunk, exact multiple) x both compressions x every puller (pull_to_file, pull_to_beve_file, pull_to_beve_zst_file, pull_to_file_trailer_verified, pull_to_file_async / _verified_async / _trailer_verified_async over AsyncClient and WebSocketClient): no fault, connection cut after the j-th next response for every j (frame-counting TCP proxy), producer io::Error after k bytes for k = 0, end and every chunk boundary +-1, rejecting verifier; trailer lengths around chunk size and stream length (both TrailerHold branches, longer than the stream); pull_value / pull_value_async under every cut and producer failure; child process aborted by the verif-hooks callback at the n-th hit of each of the 6 probe points; destination absent or pre-existing, stale .svspart present or not; distinct = distinct case line; non-trivial = a fault was injected",
+        "timeout_s": {"quick": 600, "thorough": 3000},
+    },
+    "C12": {
+        "harness": "c12", "driver": "c12", "shards": 16, "harness_shards": 16,
+        "classify": c12_class,
+        "nontrivial": lambda cls: cls["parked_first"] in ("P", "ret", "park"),
+        "rule": "histories: a waiter (wait_for_credit / wait_for_reconnect, 20 s deadline) parked on a real thread; every single op of a 20-symbol alphabet and 200 (quick) / 3000 (thorough) random histories applied op by op from other threads, observation after each op within a 100 ms grace; directed immediate-return, dropped-pending and 64-bit corners; schedules: 500 / 10^4 cases of 2-3 signaller threads with random micro-sleeps whose outcome is interleaving-independent (verified by enumerating every interleaving in the extracted model); distinct = distinct case line; non-trivial = the waiter actually parked / a schedule",
+        "timeout_s": {"quick": 600, "thorough": 3000},
+    },
+    "C14": {
+        "harness": "c14", "driver": "c14", "shards": 16, "harness_shards": 4,
+        "classify": c14_class,
+        "nontrivial": lambda cls: cls["wrote"] == "True" or cls["called"] == "True",
+        "rule": "cases = every sequence of length <=4 (quick) / <=5 (thorough) over write/read/register_function/register_value on 3 pointers x 3 values (18 symbols), directly and (one level shallower) through Router::with_registry; directed malformed pointers, array-index spellings and mount prefixes x paths; random sequences <=100 ops over pointers with ~0/~1 escapes, empty tokens, index aliases, deep nesting, a third through a mount with JSON/UTF-8/raw/unsupported bodies; after every operation the answer (value / error code / RegistryError variant), the whole root document and the call log are recorded, plus eval_json_pointer/parse_json_pointer on reads; 2-4 threads x 1-4 concurrent requests on a fixed function table with logical timestamps, checked by linearizability search (real-time order) against the extracted model and specification; distinct = distinct case; non-trivial = a write succeeded or a callable ran",
         "timeout_s": {"quick": 900, "thorough": 3400},
     },
 }
